@@ -36,4 +36,409 @@ theorem kcmp_lt_trans (ik : Bool) {a b c : Bytes} (h1 : kcmp ik a b < 0) (h2 : k
 where
   bytes_lt_trans' {a b c : Bytes} (h1 : a < b) (h2 : b < c) : a < c := List.lt_trans h1 h2
 
+
+/-! ### congruence, derived order facts -/
+
+theorem kcmp_true_lt {a b : Bytes} : kcmp true a b < 0 ↔ intVal a < intVal b := by
+  simp only [kcmp, if_true]; split
+  · omega
+  · split <;> omega
+
+theorem kcmp_true_eq {a b : Bytes} : kcmp true a b = 0 ↔ intVal a = intVal b := by
+  simp only [kcmp, if_true]; split
+  · omega
+  · split <;> omega
+
+theorem kcmp_congr_left (ik : Bool) {a b : Bytes} (c : Bytes) (h : kcmp ik a b = 0) :
+    kcmp ik a c = kcmp ik b c := by
+  cases ik
+  · have : a = b := by simpa [kcmp, bcmp_eq] using h
+    rw [this]
+  · have : intVal a = intVal b := kcmp_true_eq.mp h
+    simp only [kcmp, if_true, this]
+
+theorem kcmp_congr_right (ik : Bool) {a b : Bytes} (c : Bytes) (h : kcmp ik a b = 0) :
+    kcmp ik c a = kcmp ik c b := by
+  cases ik
+  · have : a = b := by simpa [kcmp, bcmp_eq] using h
+    rw [this]
+  · have : intVal a = intVal b := kcmp_true_eq.mp h
+    simp only [kcmp, if_true, this]
+
+theorem kcmp_eq_trans (ik : Bool) {a b c : Bytes} (h1 : kcmp ik a b = 0) (h2 : kcmp ik b c = 0) :
+    kcmp ik a c = 0 := by rw [kcmp_congr_left ik c h1]; exact h2
+
+theorem kcmp_gt_iff_lt (ik : Bool) (a b : Bytes) : 0 < kcmp ik a b ↔ kcmp ik b a < 0 :=
+  (kcmp_lt_iff_gt ik b a).symm
+
+theorem kcmp_lt_asymm (ik : Bool) {a b : Bytes} (h : kcmp ik a b < 0) : ¬ kcmp ik b a < 0 := by
+  have := (kcmp_lt_iff_gt ik a b).mp h; omega
+
+theorem kcmp_ne_of_lt (ik : Bool) {a b : Bytes} (h : kcmp ik a b < 0) : kcmp ik a b ≠ 0 := by omega
+
+theorem kcmp_ne_of_gt (ik : Bool) {a b : Bytes} (h : kcmp ik a b < 0) : kcmp ik b a ≠ 0 := by
+  have := (kcmp_lt_iff_gt ik a b).mp h; omega
+
+theorem kcmp_lt_of_lt_of_eq (ik : Bool) {a b c : Bytes} (h1 : kcmp ik a b < 0) (h2 : kcmp ik b c = 0) :
+    kcmp ik a c < 0 := by rw [← kcmp_congr_right ik a h2]; exact h1
+
+theorem kcmp_lt_of_eq_of_lt (ik : Bool) {a b c : Bytes} (h1 : kcmp ik a b = 0) (h2 : kcmp ik b c < 0) :
+    kcmp ik a c < 0 := by rw [kcmp_congr_left ik c h1]; exact h2
+
+/-- not below and not equivalent means above -/
+theorem kcmp_gt_of_not (ik : Bool) {a b : Bytes} (h1 : ¬ kcmp ik a b < 0) (h2 : ¬ kcmp ik a b = 0) :
+    kcmp ik b a < 0 := by
+  rw [kcmp_lt_iff_gt]; omega
+
+/-! ### unsigned little-endian integer keys -/
+
+theorem leNat_inj : ∀ {a b : Bytes}, a.length = b.length → leNat a = leNat b → a = b
+  | [], [], _, _ => rfl
+  | [], _ :: _, h, _ => by simp at h
+  | _ :: _, [], h, _ => by simp at h
+  | x :: xs, y :: ys, hl, h => by
+    simp only [leNat] at h
+    have hx := x.toNat_lt; have hy := y.toNat_lt
+    have h1 : x.toNat = y.toNat := by omega
+    have h2 : leNat xs = leNat ys := by omega
+    rw [UInt8.toNat_inj.mp h1, leNat_inj (by simpa using hl) h2]
+
+theorem intVal_of_len {a : Bytes} (h : a.length = 4 ∨ a.length = 8 ∨ a.length = 2) : intVal a = leNat a := by
+  simp [intVal, h]
+
+/-- on keys of one length (2, 4 or 8 bytes) the integer-key comparison is the numeric order of the
+    little-endian values, and equivalence is equality of keys -/
+theorem kcmp_int_spec {a b : Bytes} (ha : a.length = 4 ∨ a.length = 8 ∨ a.length = 2)
+    (hab : a.length = b.length) :
+    (kcmp true a b < 0 ↔ leNat a < leNat b) ∧ (kcmp true a b = 0 ↔ a = b) ∧
+    (0 < kcmp true a b ↔ leNat b < leNat a) := by
+  have hb : b.length = 4 ∨ b.length = 8 ∨ b.length = 2 := by rw [← hab]; exact ha
+  refine ⟨?_, ?_, ?_⟩
+  · rw [kcmp_true_lt, intVal_of_len ha, intVal_of_len hb]
+  · rw [kcmp_true_eq, intVal_of_len ha, intVal_of_len hb]
+    exact ⟨leNat_inj hab, fun h => by rw [h]⟩
+  · rw [kcmp_gt_iff_lt, kcmp_true_lt, intVal_of_len ha, intVal_of_len hb]
+
+/-! ### sorted DBIs -/
+
+/-- the DBI invariant: keys strictly increasing in the DBI's order -/
+def Sorted (ik : Bool) (db : KVs) : Prop := db.Pairwise (fun a b => kcmp ik a.1 b.1 < 0)
+
+instance (ik : Bool) (db : KVs) : Decidable (Sorted ik db) :=
+  inferInstanceAs (Decidable (List.Pairwise _ db))
+
+theorem sorted_nil (ik : Bool) : Sorted ik [] := List.Pairwise.nil
+
+theorem sorted_cons {ik : Bool} {p : Bytes × Bytes} {db : KVs} :
+    Sorted ik (p :: db) ↔ (∀ q ∈ db, kcmp ik p.1 q.1 < 0) ∧ Sorted ik db := List.pairwise_cons
+
+theorem Sorted.tail {ik : Bool} {p : Bytes × Bytes} {db : KVs} (h : Sorted ik (p :: db)) : Sorted ik db :=
+  (sorted_cons.mp h).2
+
+@[simp] theorem get_nil (ik : Bool) (k : Bytes) : get ik [] k = none := rfl
+
+theorem get_cons (ik : Bool) (k' v' : Bytes) (rest : KVs) (k : Bytes) :
+    get ik ((k', v') :: rest) k = if kcmp ik k k' = 0 then some v' else get ik rest k := rfl
+
+theorem del_cons (ik : Bool) (k' v' : Bytes) (rest : KVs) (k : Bytes) :
+    del ik ((k', v') :: rest) k =
+      if kcmp ik k k' = 0 then (rest, true) else ((k', v') :: (del ik rest k).1, (del ik rest k).2) := rfl
+
+/-- a key equivalent to no stored key is not found -/
+theorem get_none_of_ne {ik : Bool} {db : KVs} {k : Bytes} (h : ∀ p ∈ db, kcmp ik k p.1 ≠ 0) :
+    get ik db k = none := by
+  induction db with
+  | nil => rfl
+  | cons p rest ih =>
+    obtain ⟨k', v'⟩ := p
+    rw [get_cons, if_neg (h (k', v') (List.mem_cons_self ..))]
+    exact ih (fun q hq => h q (List.mem_cons_of_mem _ hq))
+
+theorem get_none_of_lt {ik : Bool} {db : KVs} {k : Bytes} (h : ∀ p ∈ db, kcmp ik k p.1 < 0) :
+    get ik db k = none := get_none_of_ne (fun p hp => kcmp_ne_of_lt ik (h p hp))
+
+theorem get_none_of_gt {ik : Bool} {db : KVs} {k : Bytes} (h : ∀ p ∈ db, kcmp ik p.1 k < 0) :
+    get ik db k = none := get_none_of_ne (fun p hp => kcmp_ne_of_gt ik (h p hp))
+
+/-- lookups only depend on the key's equivalence class -/
+theorem get_congr (ik : Bool) (db : KVs) {a b : Bytes} (h : kcmp ik a b = 0) : get ik db a = get ik db b := by
+  induction db with
+  | nil => rfl
+  | cons p rest ih =>
+    obtain ⟨k', v'⟩ := p
+    rw [get_cons, get_cons, kcmp_congr_left ik k' h, ih]
+
+theorem get_some_mem {ik : Bool} {db : KVs} {k v : Bytes} (h : get ik db k = some v) :
+    ∃ k', (k', v) ∈ db ∧ kcmp ik k k' = 0 := by
+  induction db with
+  | nil => simp at h
+  | cons p rest ih =>
+    obtain ⟨k', v'⟩ := p
+    rw [get_cons] at h
+    split at h
+    · cases h; exact ⟨k', List.mem_cons_self .., ‹_›⟩
+    · obtain ⟨k'', hm, hk⟩ := ih h; exact ⟨k'', List.mem_cons_of_mem _ hm, hk⟩
+
+/-- in a sorted DBI a stored pair is what `get` returns for its key -/
+theorem get_of_mem {ik : Bool} {db : KVs} (hs : Sorted ik db) {k v : Bytes} (h : (k, v) ∈ db) :
+    get ik db k = some v := by
+  induction db with
+  | nil => simp at h
+  | cons p rest ih =>
+    obtain ⟨k', v'⟩ := p
+    rw [get_cons]
+    rcases List.mem_cons.mp h with h | h
+    · cases h; rw [if_pos (kcmp_refl ik k)]
+    · have := (sorted_cons.mp hs).1 _ h
+      rw [if_neg (kcmp_ne_of_gt ik this)]
+      exact ih hs.tail h
+
+/-! ### put -/
+
+theorem put_forall {ik : Bool} (P : Bytes → Prop) {db : KVs} {k v : Bytes}
+    (hdb : ∀ p ∈ db, P p.1) (hk : P k) : ∀ p ∈ put ik db k v, P p.1 := by
+  induction db with
+  | nil => intro p hp; simp [put] at hp; rw [hp]; exact hk
+  | cons q rest ih =>
+    obtain ⟨k', v'⟩ := q
+    intro p hp
+    unfold put at hp
+    split at hp
+    · rcases List.mem_cons.mp hp with h | h
+      · rw [h]; exact hk
+      · exact hdb p h
+    · split at hp
+      · rcases List.mem_cons.mp hp with h | h
+        · rw [h]; exact hdb (k', v') (List.mem_cons_self ..)
+        · exact hdb p (List.mem_cons_of_mem _ h)
+      · rcases List.mem_cons.mp hp with h | h
+        · rw [h]; exact hdb (k', v') (List.mem_cons_self ..)
+        · exact ih (fun q hq => hdb q (List.mem_cons_of_mem _ hq)) p h
+
+theorem sorted_put {ik : Bool} {db : KVs} (hs : Sorted ik db) (k v : Bytes) : Sorted ik (put ik db k v) := by
+  induction db with
+  | nil => exact List.pairwise_singleton _ _
+  | cons q rest ih =>
+    obtain ⟨k', v'⟩ := q
+    have ⟨h1, h2⟩ := sorted_cons.mp hs
+    unfold put
+    split
+    · rename_i hlt
+      refine sorted_cons.mpr ⟨?_, hs⟩
+      intro q hq
+      rcases List.mem_cons.mp hq with h | h
+      · rw [h]; exact hlt
+      · exact kcmp_lt_trans ik hlt (h1 q h)
+    · split
+      · exact sorted_cons.mpr ⟨h1, h2⟩
+      · rename_i hnlt hne
+        refine sorted_cons.mpr ⟨?_, ih h2⟩
+        exact put_forall (fun x => kcmp ik k' x < 0) h1 (kcmp_gt_of_not ik hnlt hne)
+
+/-- read-after-write (no sortedness needed) -/
+theorem get_put (ik : Bool) (db : KVs) (k v k' : Bytes) :
+    get ik (put ik db k v) k' = if kcmp ik k k' = 0 then some v else get ik db k' := by
+  induction db with
+  | nil => simp only [put, get_cons, get_nil, kcmp_eq_comm ik k' k]
+  | cons q rest ih =>
+    obtain ⟨k0, v0⟩ := q
+    unfold put
+    split
+    · simp only [get_cons, kcmp_eq_comm ik k' k]
+    · split
+      · rename_i _ heq
+        have e : (kcmp ik k' k0 = 0) = (kcmp ik k k' = 0) := by
+          rw [kcmp_eq_comm ik k' k0, ← kcmp_congr_left ik k' heq]
+        simp only [get_cons, e]
+        split <;> rfl
+      · rename_i _ hne
+        simp only [get_cons, ih]
+        by_cases h1 : kcmp ik k' k0 = 0
+        · have : ¬ kcmp ik k k' = 0 := fun h => hne (kcmp_eq_trans ik h h1)
+          simp only [if_pos h1, if_neg this]
+        · simp only [if_neg h1]
+
+/-- an identical put leaves the list unchanged -/
+theorem put_of_get_some {ik : Bool} {db : KVs} (hs : Sorted ik db) {k v : Bytes}
+    (h : get ik db k = some v) : put ik db k v = db := by
+  induction db with
+  | nil => simp at h
+  | cons q rest ih =>
+    obtain ⟨k0, v0⟩ := q
+    have ⟨h1, h2⟩ := sorted_cons.mp hs
+    rw [get_cons] at h
+    unfold put
+    split
+    · rename_i hlt
+      rw [if_neg (kcmp_ne_of_lt ik hlt)] at h
+      rw [get_none_of_lt (fun p hp => kcmp_lt_trans ik hlt (h1 p hp))] at h
+      cases h
+    · split
+      · rename_i _ heq
+        rw [if_pos heq] at h; cases h; rfl
+      · rename_i _ hne
+        rw [if_neg hne] at h
+        rw [ih h2 h]
+
+theorem get_of_put_eq {ik : Bool} {db : KVs} {k v : Bytes} (h : put ik db k v = db) :
+    get ik db k = some v := by
+  have := get_put ik db k v k
+  rw [h, if_pos (kcmp_refl ik k)] at this
+  exact this
+
+/-! ### del -/
+
+theorem del_mem {ik : Bool} {db : KVs} {k : Bytes} : ∀ p ∈ (del ik db k).1, p ∈ db := by
+  induction db with
+  | nil => intro p hp; simp [del] at hp
+  | cons q rest ih =>
+    obtain ⟨k0, v0⟩ := q
+    intro p hp
+    rw [del_cons] at hp
+    split at hp
+    · exact List.mem_cons_of_mem _ hp
+    · rcases List.mem_cons.mp hp with h | h
+      · rw [h]; exact List.mem_cons_self ..
+      · exact List.mem_cons_of_mem _ (ih p h)
+
+theorem sorted_del {ik : Bool} {db : KVs} (hs : Sorted ik db) (k : Bytes) : Sorted ik (del ik db k).1 := by
+  induction db with
+  | nil => exact sorted_nil ik
+  | cons q rest ih =>
+    obtain ⟨k0, v0⟩ := q
+    have ⟨h1, h2⟩ := sorted_cons.mp hs
+    rw [del_cons]
+    split
+    · exact h2
+    · exact sorted_cons.mpr ⟨fun p hp => h1 p (del_mem p hp), ih h2⟩
+
+/-- the flag `del` returns says whether the key was present -/
+theorem del_snd (ik : Bool) (db : KVs) (k : Bytes) : (del ik db k).2 = (get ik db k).isSome := by
+  induction db with
+  | nil => rfl
+  | cons q rest ih =>
+    obtain ⟨k0, v0⟩ := q
+    rw [del_cons, get_cons]
+    split
+    · rfl
+    · exact ih
+
+theorem get_del {ik : Bool} {db : KVs} (hs : Sorted ik db) (k k' : Bytes) :
+    get ik (del ik db k).1 k' = if kcmp ik k k' = 0 then none else get ik db k' := by
+  induction db with
+  | nil => simp [del]
+  | cons q rest ih =>
+    obtain ⟨k0, v0⟩ := q
+    have ⟨h1, h2⟩ := sorted_cons.mp hs
+    rw [del_cons]
+    split
+    · rename_i heq
+      rw [get_cons]
+      by_cases hk : kcmp ik k k' = 0
+      · rw [if_pos hk]
+        have hk0 : kcmp ik k' k0 = 0 := kcmp_eq_trans ik ((kcmp_eq_comm ik k k').mp hk) heq
+        exact get_none_of_lt (fun p hp => kcmp_lt_of_eq_of_lt ik hk0 (h1 p hp))
+      · rw [if_neg hk]
+        have : ¬ kcmp ik k' k0 = 0 := fun h => hk (kcmp_eq_trans ik heq ((kcmp_eq_comm ik k' k0).mp h))
+        rw [if_neg this]
+    · rename_i hne
+      simp only [get_cons, ih h2]
+      by_cases h0 : kcmp ik k' k0 = 0
+      · have : ¬ kcmp ik k k' = 0 := fun h => hne (kcmp_eq_trans ik h h0)
+        simp only [if_pos h0, if_neg this]
+      · simp only [if_neg h0]
+
+theorem del_of_get_none {ik : Bool} {db : KVs} {k : Bytes} (h : get ik db k = none) :
+    (del ik db k).1 = db := by
+  induction db with
+  | nil => rfl
+  | cons q rest ih =>
+    obtain ⟨k0, v0⟩ := q
+    rw [get_cons] at h
+    rw [del_cons]
+    split at h
+    · cases h
+    · rename_i hne
+      rw [if_neg hne, ih h]
+
+theorem del_ne_of_get_some {ik : Bool} {db : KVs} {k : Bytes} (h : (get ik db k).isSome = true) :
+    (del ik db k).1 ≠ db := by
+  have hlen : ∀ (db : KVs), (get ik db k).isSome = true → (del ik db k).1.length < db.length := by
+    intro db
+    induction db with
+    | nil => intro h; simp at h
+    | cons q rest ih =>
+      obtain ⟨k0, v0⟩ := q
+      intro h
+      rw [get_cons] at h
+      rw [del_cons]
+      split
+      · simp
+      · rename_i hne
+        rw [if_neg hne] at h
+        have := ih h
+        simp only [List.length_cons]; omega
+  intro he
+  have := hlen db h
+  rw [he] at this
+  omega
+
+/-! ### writing behind a prefix of smaller keys (the cursor position of a merge-join) -/
+
+theorem put_cons (ik : Bool) (k' v' : Bytes) (rest : KVs) (k v : Bytes) :
+    put ik ((k', v') :: rest) k v =
+      if kcmp ik k k' < 0 then (k, v) :: (k', v') :: rest
+      else if kcmp ik k k' = 0 then (k', v) :: rest
+      else (k', v') :: put ik rest k v := rfl
+
+theorem put_append_gt {ik : Bool} {done : KVs} (X : KVs) {k : Bytes} (v : Bytes)
+    (h : ∀ p ∈ done, kcmp ik p.1 k < 0) : put ik (done ++ X) k v = done ++ put ik X k v := by
+  induction done with
+  | nil => rfl
+  | cons q rest ih =>
+    obtain ⟨k0, v0⟩ := q
+    have h0 : kcmp ik k0 k < 0 := h (k0, v0) (List.mem_cons_self ..)
+    have h1 : ¬ kcmp ik k k0 < 0 := kcmp_lt_asymm ik h0
+    have h2 : ¬ kcmp ik k k0 = 0 := kcmp_ne_of_gt ik h0
+    show put ik ((k0, v0) :: (rest ++ X)) k v = _
+    rw [put_cons, if_neg h1, if_neg h2, ih (fun p hp => h p (List.mem_cons_of_mem _ hp))]
+    rfl
+
+theorem del_append_gt {ik : Bool} {done : KVs} (X : KVs) {k : Bytes}
+    (h : ∀ p ∈ done, kcmp ik p.1 k < 0) :
+    del ik (done ++ X) k = (done ++ (del ik X k).1, (del ik X k).2) := by
+  induction done with
+  | nil => rfl
+  | cons q rest ih =>
+    obtain ⟨k0, v0⟩ := q
+    have h0 : kcmp ik k0 k < 0 := h (k0, v0) (List.mem_cons_self ..)
+    have h2 : ¬ kcmp ik k k0 = 0 := kcmp_ne_of_gt ik h0
+    show del ik ((k0, v0) :: (rest ++ X)) k = _
+    rw [del_cons, if_neg h2, ih (fun p hp => h p (List.mem_cons_of_mem _ hp))]
+    rfl
+
+theorem put_head_eq {ik : Bool} {k dk : Bytes} (dv : Bytes) (ds : KVs) (v : Bytes) (h : kcmp ik k dk = 0) :
+    put ik ((dk, dv) :: ds) k v = (dk, v) :: ds := by
+  rw [put_cons, if_neg (by omega), if_pos h]
+
+theorem put_before {ik : Bool} {k : Bytes} (X : KVs) (v : Bytes) (h : ∀ p ∈ X, kcmp ik k p.1 < 0) :
+    put ik X k v = (k, v) :: X := by
+  cases X with
+  | nil => rfl
+  | cons q rest =>
+    obtain ⟨k0, v0⟩ := q
+    rw [put_cons, if_pos (h (k0, v0) (List.mem_cons_self ..))]
+
+theorem del_head_eq {ik : Bool} {k dk : Bytes} (dv : Bytes) (ds : KVs) (h : kcmp ik k dk = 0) :
+    del ik ((dk, dv) :: ds) k = (ds, true) := by
+  rw [del_cons, if_pos h]
+
+theorem del_before {ik : Bool} {k : Bytes} (X : KVs) (h : ∀ p ∈ X, kcmp ik k p.1 < 0) :
+    del ik X k = (X, false) := by
+  have hg := get_none_of_lt h
+  have h1 := del_of_get_none hg
+  have h2 := del_snd ik X k
+  rw [hg] at h2
+  exact Prod.ext h1 h2
+
 end Ls.Lmdb
